@@ -2,6 +2,8 @@
 
 from __future__ import annotations
 
+import ast
+
 from vpbt import ast_checks as A, gen_programs as gp, pyexec as X
 from vpbt import prog_check as P
 
@@ -14,7 +16,7 @@ RULE = (
     "explored path-exhaustively as a tree (extend a tape only when a run exhausted it) up to the tier's depth. Allowed: explicit NotImplementedError "
     "(refusal) or equal observations (outcome kind, repr of value / exception type, full external-call trace). Main shards exclude by construction "
     "the constructs of recorded findings (known_findings.txt); one probe shard group per recorded finding enables exactly that construct and accepts "
-    "only that finding's signature. Non-trivial = accepted program with >= 1 loop and >= 1 branch and at least one completed path. Distinct = hash of the source."
+    "only that finding's signature. Corpus leg: standard-library functions whose source lies in the supported statement subset go through the same pipeline and must be refused explicitly or yield source that compiles. Non-trivial = accepted program with >= 1 loop and >= 1 branch and at least one completed path. Distinct = hash of the source."
 )
 ASSUME = [
     "arguments come from a finite pool; path exhaustiveness holds for tape-driven decisions up to the depth bound; programs that hit the call/line budget are inconclusive (counted, never a violation)",
@@ -51,4 +53,88 @@ def _nontrivial(status, feats, stats):
     return status == "ok" and "loop" in feats and "if" in feats
 
 
-run, plan, replay, shrink = P.make(PID, check_program, _nontrivial)
+_run, _plan, _replay, _shrink = P.make(PID, check_program, _nontrivial)
+
+SUPPORTED_STMTS = (ast.FunctionDef, ast.Assign, ast.AugAssign, ast.Expr, ast.Return, ast.Pass, ast.Break, ast.Continue, ast.If, ast.While, ast.For)
+
+
+def in_supported_subset(src):
+    try:
+        tree = ast.parse(src)
+    except SyntaxError:
+        return False
+    if len(tree.body) != 1 or not isinstance(tree.body[0], ast.FunctionDef):
+        return False
+    fn = tree.body[0]
+    if fn.decorator_list:
+        return False
+    for n in ast.walk(fn):
+        if isinstance(n, ast.stmt) and (not isinstance(n, SUPPORTED_STMTS) or (isinstance(n, ast.FunctionDef) and n is not fn)):
+            return False
+        if isinstance(n, (ast.Yield, ast.YieldFrom, ast.Await)):
+            return False
+    return True
+
+
+def check_corpus_function(label, src):
+    """real functions in the supported subset: the pipeline must refuse
+    explicitly or produce source that compiles (behaviour cannot be compared
+    without an environment)."""
+    try:
+        new_src, scfg, fdef = A.roundtrip(src)
+    except A.Refused:
+        return "refused", None, ""
+    except A.Internal as e:
+        return "fail", f"C07:corpus:internal:{e.sig}", f"{label}: {e}"
+    try:
+        compile(new_src, "<regenerated>", "exec")
+    except SyntaxError as e:
+        return "fail", "C07:corpus:syntax", f"{label}: regenerated source does not compile: {e}"
+    return "ok", None, ""
+
+
+def run(spec):
+    if spec[0] != "corpus":
+        return _run(spec)
+    from vpbt import bytecode_model as bm
+    from vpbt.core import Collector
+
+    _, shard, nshards, limit = spec
+    col = Collector()
+    n = 0
+    for label, src in bm.corpus_function_sources(shard, nshards):
+        if n >= limit:
+            break
+        if not in_supported_subset(src):
+            col.count("corpus_outside_subset")
+            continue
+        n += 1
+        status, sig, msg = check_corpus_function(label, src)
+        col.count("corpus_" + status)
+        if status == "fail":
+            col.fail(sig, msg, dict(corpus_function=label, src=src), len(src))
+        f = gp.features(src)
+        col.case(("corpus", label), len(src), status == "ok" and "loop" in f and "if" in f, sample=dict(corpus_function=label, status=status), classes=["corpus", "corpus_" + status])
+    return col.result()
+
+
+def plan(tier, seed):
+    specs = _plan(tier, seed)
+    if tier == "quick":
+        specs += [("corpus", s, 16, 40) for s in range(16)]
+    else:
+        specs += [("corpus", s, 16, 10**9) for s in range(16)]
+    return specs
+
+
+def replay(inp):
+    if "corpus_function" in inp:
+        status, sig, msg = check_corpus_function(inp["corpus_function"], inp["src"])
+        return [(sig, msg)] if status == "fail" else []
+    return _replay(inp)
+
+
+def shrink(fail):
+    if "corpus_function" in fail["replay"]:
+        return fail
+    return _shrink(fail)
